@@ -88,8 +88,10 @@ def add_filter(component, patterns, max_match=MAX_MATCH):
         return dict((k, none_max(da.get(k), db.get(k))) for k in set(da.keys()).union(db.keys()))
 
     def inner(comp, patterns):
-        if comp in _CACHE:
-            del _CACHE[comp]
+        # the cached filters of any datasource below `comp` (e.g. the
+        # implementations of a RegistryPoint) may include the filters of
+        # `comp`, so a new filter invalidates all of them
+        _CACHE.clear()
 
         if not isinstance(patterns, (six.string_types, list, set)):
             raise TypeError("Filter patterns must be of type string, list, or set.")
